@@ -201,6 +201,70 @@ def c08(tier):
     return finish(prop, tier, t0, viols, cov)
 
 
+# ------------------------------------------------------------------ C07
+
+def c07(tier):
+    t0 = time.time()
+    prop = "C07"
+    wd = workdir(prop)
+    build_harness("default")
+    cfg = os.path.join(wd, "Tamper.cfg")
+    write_cfg(cfg, {"NTraps": 2})
+    g = run_module("Tamper.tla", cfg, wd, "gen")
+    if "GEN-DONE" not in g["out"]:
+        raise ToolError("Tamper gen failed (the symbolic model admits a malleation):\n" + g["out"][-3000:])
+    cases = tagged(g["out"], "CASE")
+    cases_path = os.path.join(wd, "cases.ndjson")
+    with open(cases_path, "w") as f:
+        for c in cases:
+            f.write(json.dumps(c) + "\n")
+    obs = os.path.join(wd, "observed.ndjson")
+    args = ["tamper", "--cases", cases_path, "--out", obs, "--seed", str(seed())]
+    if tier == "thorough":
+        args.append("--thorough")
+    run_harness(args, timeout=6000)
+    c = run_module("Tamper.tla", cfg, wd, "check", trace=obs, timeout=3000)
+    if "CHECK-DONE" not in c["out"]:
+        raise ToolError("Tamper check did not finish:\n" + c["out"][-3000:])
+    viols = []
+    for idx, verdict, rec in viol_lines(c["out"]):
+        what = {"tampered-accepted": "a modified encapsulation still decapsulates to the secret",
+                "different-secret": "decapsulation returned a secret different from the encapsulated one",
+                "panic": "decapsulation of a modified encapsulation panicked",
+                "untouched-rejected": "the untouched encapsulation is not opened by an authorised key",
+                "unauthorised-opens": "an unauthorised key opens the encapsulation"}.get(verdict, verdict)
+        viols.append({"what": what, "cause": verdict, "detail": rec})
+    with open(obs) as f:
+        recs = [json.loads(l) for l in f]
+    twin = [r for r in recs if r.get("twin_mismatch")]
+    for r in twin[:3]:
+        print("MODEL-DRIFT Tamper: byte-level twin and model disagree on identity: " + json.dumps(r["actions"]))
+    extra = {}
+    # the PKE / encrypted-metadata half of the statement is exercised by the Pke satellite's tamper classes
+    try:
+        import sat_pke
+        if hasattr(sat_pke, "tamper_only"):
+            pv, pcov = sat_pke.tamper_only(tier, wd)
+            viols += pv
+            extra["pke_tamper"] = pcov
+    except Exception as e:  # noqa: BLE001
+        extra["pke_tamper"] = f"not available: {e}"
+    cov = {
+        "evaluations": sum(r["total"] for r in recs),
+        "distinct_nontrivial": len({json.dumps([r["n"], r["hyb"], r["actions"]]) for r in recs if not r["identity"] and r["total"] > 0}),
+        "rule": "every sequence of <= 2 tamper actions of Tamper.tla (corrupt / swap / drop / duplicate traps, entries, E or F halves, "
+                "splices from a second encapsulation, flavour flip) on 1- and 3-target, classic and hybridised encapsulations; single "
+                "corrupt actions are expanded by the harness to 12 byte/bit positions (quick) or every byte x every bit (thorough); "
+                "every mutant is decapsulated with 3 keys; non-trivial = distinct non-identity case with at least one concrete mutant",
+        "samples": [r for r in recs if r["total"] > 0][:3],
+        "model_cases": len(cases), "twin_mismatches": len(twin),
+        "outcomes": {k: sum(r[k] for r in recs) for k in ("same", "none", "err", "diff", "panic")},
+        "states": max(1, c["distinct"]), "transitions": max(1, c["generated"]),
+    }
+    cov.update(extra)
+    return finish(prop, tier, t0, viols, cov)
+
+
 def c12(tier):
     import sat_pke
     return sat_pke.check(tier)
@@ -211,7 +275,7 @@ def c14(tier):
     return sat_wire.check(tier)
 
 
-CHECKS = {"C15": c15, "C12": c12, "C14": c14, "C08": c08}
+CHECKS = {"C15": c15, "C12": c12, "C14": c14, "C08": c08, "C07": c07}
 
 
 def replay(prop, path):
